@@ -50,6 +50,9 @@ pub struct PairCfg {
     /// v5.0: every publish carries a User Property with a value of this many bytes (0 = none): with 120 the
     /// property block of an alias-registering PUBLISH is 129 bytes and that of its stored copy 126
     pub pub_pad: usize,
+    /// restrict the workload to publishes of this QoS on the first topic, issued by the client only (keeps a
+    /// four-operation workload small: four exchanges in flight at once)
+    pub only_q: Option<u8>,
 }
 
 #[derive(Clone, Copy, Debug, PartialEq, Eq, Hash)]
@@ -484,7 +487,8 @@ impl<P: Pid> Pair<P> {
         }
         for (name, conn, rm) in [("client", &self.c, self.cfg.rm_s), ("server", &self.s, self.cfg.rm_c)] {
             let s = conn.snap();
-            let idle = s.pid_free.len() == 1 && s.store.is_empty() && s.pid_puback.is_empty() && s.pid_pubrec.is_empty() && s.pid_pubcomp.is_empty() && s.pid_suback.is_empty() && s.pid_unsuback.is_empty() && s.qos2_publish_handled.is_empty();
+            // (every identifier free again: one run from 1 to the largest identifier)
+            let idle = s.pid_free == vec![(1u64, if P::W == 2 { 65535u64 } else { u32::MAX as u64 })] && s.store.is_empty() && s.pid_puback.is_empty() && s.pid_pubrec.is_empty() && s.pid_pubcomp.is_empty() && s.pid_suback.is_empty() && s.pid_unsuback.is_empty() && s.qos2_publish_handled.is_empty();
             if !idle {
                 self.viol(out, "c01.not-idle", format!("c01.not-idle|{name}"), format!("at quiescence the {name} is not idle: free ids {:?}, store {}, awaiting {:?}/{:?}/{:?}, sub {:?}/{:?}, handled {:?}", s.pid_free, s.store.len(), s.pid_puback, s.pid_pubrec, s.pid_pubcomp, s.pid_suback, s.pid_unsuback, s.qos2_publish_handled));
             }
@@ -513,7 +517,17 @@ impl<P: Pid> World for Pair<P> {
             }
         }
         ops.extend([Op::Sub, Op::Unsub, Op::Ping]);
+        if let Some(oq) = cfg.only_q {
+            ops.retain(|o| matches!(o, Op::Pub { q, t: 0, al: Al::No } if *q == oq));
+        }
         for op in &ops {
+            if cfg.only_q.is_some() && self.op_enabled(true, op) {
+                v.push(Act::COp(*op));
+                continue;
+            }
+            if cfg.only_q.is_some() {
+                continue;
+            }
             if self.op_enabled(true, op) {
                 v.push(Act::COp(*op));
             }
@@ -698,6 +712,7 @@ pub fn configs(thorough: bool) -> Vec<PairCfg> {
         use_extra: 0,
         refuse_code: None,
         pub_pad: 0,
+        only_q: None,
     };
     for ver in [Ver::V4, Ver::V5] {
         v.push(base(ver, "auto/auto"));
@@ -733,6 +748,14 @@ pub fn configs(thorough: bool) -> Vec<PairCfg> {
             continue;
         }
         v.push(PairCfg { tam: 1, alias_mode: mode, losses: 1, pub_pad: pad, partials: 0, ..base(Ver::V5, &format!("tam=1 alias-mode={mode} padded properties ({pad})")) });
+    }
+    // four exchanges in flight at once (QoS 1 from the client, no loss): identifiers 1..4 complete in every order
+    // the two delivery directions allow; at quiescence every one of them is free again
+    for ver in [Ver::V4, Ver::V5] {
+        if !thorough && ver == Ver::V5 {
+            continue;
+        }
+        v.push(PairCfg { ops_total: 4, ops_per_side: 4, partials: 0, losses: 0, only_q: Some(1), ..base(ver, "four QoS 1 exchanges in flight") });
     }
     // a receiving application that refuses every message (failure PUBACK / PUBREC), Receive Maximum 1 both ways:
     // the refused exchange is over - after a loss and resume, too, nothing of it may still count
